@@ -131,6 +131,19 @@ fn bounded_search_over_query_strings_forms_and_json() {
         let got = JsonBody::<Form>::extract(&hj, &BufferedBody { bytes: json.into() }).unwrap_or_else(|e| panic!("#{i}: JSON of {want:?} was rejected: {e:?}")).0;
         assert_eq!(got, want, "#{i}: JSON body");
     }
+    // large inputs are not cut short: every one of 3000 sequence entries arrives, in order, in a query and in a form
+    {
+        #[derive(serde::Deserialize, Debug, PartialEq)] struct Many { ids: Vec<u32>, last: String }
+        let want: Vec<u32> = (0..3000).collect();
+        let mut ser = form_urlencoded::Serializer::new(String::new());
+        for i in &want { ser.append_pair("ids", &i.to_string()); }
+        ser.append_pair("last", "end");
+        let encoded = ser.finish();
+        let h = head(&format!("/p?{encoded}"), Some("application/x-www-form-urlencoded"));
+        assert_eq!(QueryParams::<Many>::extract(&h).expect("a long query string is still a query string").0, Many { ids: want.clone(), last: "end".into() });
+        let got = UrlEncodedBody::<Many>::extract(&h, &BufferedBody { bytes: encoded.into_bytes().into() }).expect("a long form is still a form").0;
+        assert_eq!((got.ids.len(), got.ids == want, got.last.as_str()), (3000, true, "end"), "a long form was cut short");
+    }
     // sequences, missing fields, wrong types, wrong content type: documented errors, no panic
     #[derive(serde::Deserialize, Debug, PartialEq)] struct Seq { ids: Vec<u32> }
     assert_eq!(QueryParams::<Seq>::extract(&head("/p?ids=1&ids=2&ids=4294967295", None)).unwrap().0, Seq { ids: vec![1, 2, u32::MAX] });
